@@ -57,7 +57,9 @@ def list_term(items):
 
 
 def dict_term(d):
-    t = ufun('v_dnil', Val)()
+    t = getattr(d, 'base_term', None)
+    if t is None:
+        t = ufun('v_dnil', Val)()
     for k, x in d.items():
         if isinstance(k, str) and k.startswith('__opaque_update__'):
             t = ufun('v_dmerge', Val, Val, Val)(t, val_term(x))
@@ -73,6 +75,10 @@ def val_term(v):
     from .models import LazySeq, SymDict
     if isinstance(v, OpaqueVal) and v.term.sort() == Val:
         return v.term
+    if is_z3(v) and not is_symint(v) and not is_symbool(v):
+        if v.sort() == Val:
+            return v
+        return ufun('v_term_' + str(v.sort()), v.sort(), Val)(v)
     if isinstance(v, Chunk):
         return ufun('v_list', Val, Val)(v.term)
     if v is None:
